@@ -19,9 +19,11 @@ import (
 type PropSpec struct {
 	Pkgs      []string `json:"pkgs"`
 	Functions []struct {
-		Key     string   `json:"key"`
-		Labels  []string `json:"labels,omitempty"`  // if set: only obligations whose label matches one of these regexps (plus pre/safe/cover of the function)
-		Exclude []string `json:"exclude,omitempty"` // obligation-name regexps to skip
+		Key         string   `json:"key"`
+		Labels      []string `json:"labels,omitempty"`       // if set: only obligations whose label matches one of these regexps (plus pre/safe/cover of the function)
+		Exclude     []string `json:"exclude,omitempty"`      // obligation-name regexps to skip
+		Instances   []string `json:"instances,omitempty"`    // bounded instances (contract `instance` clauses) to verify in addition
+		NoUnbounded bool     `json:"no_unbounded,omitempty"` // verify only the bounded instances of this function
 	} `json:"functions"`
 	Lemmas         []string `json:"lemmas,omitempty"`
 	Structural     []string `json:"structural,omitempty"` // names of structural (enumeration) obligations
@@ -143,25 +145,38 @@ func cmdCheck(args []string) int {
 	fnInfo := []map[string]interface{}{}
 	notes := map[string]int{}
 	broken := []string{}
+	type job struct {
+		key, inst       string
+		labels, exclude []string
+	}
+	var jobs []job
 	for _, f := range ps.Functions {
-		tx, err := s.verifyFn(f.Key)
+		if !f.NoUnbounded {
+			jobs = append(jobs, job{f.Key, "", f.Labels, f.Exclude})
+		}
+		for _, in := range f.Instances {
+			jobs = append(jobs, job{f.Key, in, nil, nil})
+		}
+	}
+	for _, f := range jobs {
+		tx, err := s.verifyFnInstance(f.key, f.inst)
 		if err != nil {
 			broken = append(broken, err.Error())
 			continue
 		}
 		for _, u := range tx.unsupported {
-			broken = append(broken, f.Key+": outside the verified subset: "+u)
+			broken = append(broken, f.key+": outside the verified subset: "+u)
 		}
 		txs = append(txs, tx)
 		n := 0
 		for _, o := range tx.obls {
-			if len(f.Exclude) > 0 && matchAny(f.Exclude, o.Name) {
+			if len(f.exclude) > 0 && matchAny(f.exclude, o.Name) {
 				continue
 			}
 			if strings.HasPrefix(o.Label, "t3_") && *tier != "thorough" {
 				continue
 			}
-			if len(f.Labels) > 0 && (o.Kind == "post" || o.Kind == "assert" || o.Kind == "inv-init" || o.Kind == "inv-pres") && !matchAny(f.Labels, o.Label) {
+			if len(f.labels) > 0 && (o.Kind == "post" || o.Kind == "assert" || o.Kind == "inv-init" || o.Kind == "inv-pres") && !matchAny(f.labels, o.Label) {
 				continue
 			}
 			obls = append(obls, o)
@@ -170,8 +185,11 @@ func cmdCheck(args []string) int {
 		for k, v := range tx.notes {
 			notes[k] += v
 		}
-		c := s.cs.Fns[f.Key]
-		info := map[string]interface{}{"function": f.Key, "obligations": n}
+		c := s.cs.Fns[f.key]
+		info := map[string]interface{}{"function": f.key, "obligations": n}
+		if f.inst != "" {
+			info["bounded_instance"] = f.inst
+		}
 		if c != nil {
 			info["requires"] = len(c.Requires)
 			info["ensures"] = len(c.Ensures)
@@ -217,6 +235,8 @@ func cmdCheck(args []string) int {
 	violations := 0
 	known := []string{}
 	nProved, nCover, nCoverOK, nTotal := 0, 0, 0, 0
+	nBounded, nBoundedOK := 0, 0
+	skipped := 0
 	bySolver := map[string]int{}
 	solverTime := 0.0
 	undecidedT3 := []string{}
@@ -243,11 +263,23 @@ func cmdCheck(args []string) int {
 			}
 			continue
 		}
-		nTotal++
-		switch o.Status {
-		case "proved":
-			nProved++
-			bySolver[o.Solver]++
+		if o.Bounded != "" {
+			nBounded++
+			if o.Status == "proved" {
+				nBoundedOK++
+				bySolver[o.Solver]++
+				continue
+			}
+		} else {
+			nTotal++
+			if o.Status == "proved" {
+				nProved++
+				bySolver[o.Solver]++
+				continue
+			}
+		}
+		if o.Status == "skipped" {
+			skipped++
 			continue
 		}
 		// not proved
@@ -265,7 +297,11 @@ func cmdCheck(args []string) int {
 		}
 		if strings.HasPrefix(o.Label, "t3_") && o.Status == "unknown" {
 			undecidedT3 = append(undecidedT3, o.Name)
-			nTotal--
+			if o.Bounded == "" {
+				nTotal--
+			} else {
+				nBounded--
+			}
 			continue
 		}
 		violations++
@@ -336,23 +372,24 @@ func cmdCheck(args []string) int {
 	}
 	sort.Strings(src)
 	cov := map[string]interface{}{
-		"obligations":              nTotal,
-		"discharged":               nProved,
-		"checker_cmd":              fmt.Sprintf("/verif/bin/zv check --property %s --tier %s  [%s]", *prop, *tier, solverVersions()),
-		"trusted_base":             trusted,
-		"functions_under_contract": fnInfo,
-		"by_solver":                bySolver,
-		"solver_time_s":            round2(solverTime),
-		"slowest":                  slow,
-		"covers":                   map[string]int{"checked": nCover, "satisfiable": nCoverOK},
-		"samples":                  samples,
-		"contracts_source":         src,
-		"claim":                    ps.Claim,
-		"unverified_parts":         ps.Unverified,
-		"undecided_thorough_only":  undecidedT3,
-		"known_findings":           known,
+		"obligations":               nTotal,
+		"discharged":                nProved,
+		"checker_cmd":               fmt.Sprintf("/verif/bin/zv check --property %s --tier %s  [%s]", *prop, *tier, solverVersions()),
+		"trusted_base":              trusted,
+		"functions_under_contract":  fnInfo,
+		"by_solver":                 bySolver,
+		"solver_time_s":             round2(solverTime),
+		"slowest":                   slow,
+		"covers":                    map[string]int{"checked": nCover, "satisfiable": nCoverOK},
+		"samples":                   samples,
+		"contracts_source":          src,
+		"claim":                     ps.Claim,
+		"unverified_parts":          ps.Unverified,
+		"undecided_thorough_only":   undecidedT3,
+		"known_findings":            known,
+		"bounded":                   map[string]interface{}{"note": "bounded stand-ins (contract `instance` clauses fix resolution and accumulator width; all lengths, alignments and contents remain symbolic); never counted in obligations/discharged", "obligations": nBounded, "discharged": nBoundedOK, "instances": boundedInstances(jobsInstances(ps))},
 		"unreachable_return_points": deadList,
-		"load_s":                   round2(s.ld.LoadS),
+		"load_s":                    round2(s.ld.LoadS),
 	}
 	if len(known) > 0 || level == "other" {
 		level = "other"
@@ -369,11 +406,30 @@ func cmdCheck(args []string) int {
 	for _, l := range lines {
 		fmt.Println(l)
 	}
-	fmt.Printf("%s %s: %d/%d obligations discharged, %d covers ok/%d, %d known findings, %d violations, %.1fs\n", *prop, *tier, nProved, nTotal, nCoverOK, nCover, len(known), violations, time.Since(t0).Seconds())
+	fmt.Printf("%s %s: %d/%d obligations discharged, %d/%d bounded-instance obligations, %d covers ok/%d, %d known findings, %d violations, %.1fs\n", *prop, *tier, nProved, nTotal, nBoundedOK, nBounded, nCoverOK, nCover, len(known), violations, time.Since(t0).Seconds())
 	if violations > 0 {
 		return 1
 	}
 	return 0
+}
+
+func jobsInstances(ps *PropSpec) map[string][]string {
+	m := map[string][]string{}
+	for _, f := range ps.Functions {
+		if len(f.Instances) > 0 {
+			m[f.Key] = f.Instances
+		}
+	}
+	return m
+}
+
+func boundedInstances(m map[string][]string) []string {
+	out := []string{}
+	for k, v := range m {
+		out = append(out, k+": "+strings.Join(v, ", "))
+	}
+	sort.Strings(out)
+	return out
 }
 
 func round2(f float64) float64 { return float64(int(f*100+0.5)) / 100 }
